@@ -76,35 +76,49 @@ theorem C17_date_with_spec (r : IsoDate) (p : PartialDate) (ov : Overflow) (hr :
   rw [hwf] at hmr ⊢
   simp only [Out.bind_ok] at hmr ⊢
   unfold dateFromPartial resolvedFieldsIso
-  by_cases hera : p.era = true ∨ p.eraYear.isSome = true
-  · rw [if_pos hera]
-    have : eraYearIso ⟨some (p.year.getD r.year), mm, cc, some (p.day.getD r.day), p.era, p.eraYear⟩ = .err .type := by
+  by_cases h1 : p.era = true ∧ p.eraYear.isSome = true ∧ p.year.isNone = true
+  · rw [if_pos h1]
+    have : eraYearIso ⟨(if p.year.isSome ∨ p.era ∨ p.eraYear.isSome then p.year else some r.year), mm, cc,
+        some (p.day.getD r.day), p.era, p.eraYear⟩ = .err .range := by
       unfold eraYearIso
-      cases he : p.era <;> cases hy : p.eraYear <;> simp_all
+      obtain ⟨a, b, c⟩ := h1
+      cases hy : p.year <;> cases he : p.eraYear <;> simp_all
     rw [this]; rfl
-  · rw [if_neg hera]
-    have he : p.era = false ∧ p.eraYear = none := by
-      cases h1 : p.era <;> cases h2 : p.eraYear <;> simp_all
-    have : eraYearIso ⟨some (p.year.getD r.year), mm, cc, some (p.day.getD r.day), p.era, p.eraYear⟩ =
-        .ok (p.year.getD r.year) := by unfold eraYearIso; simp [he.1, he.2]
-    rw [this]
-    simp only [Out.bind_ok]
-    cases hres : resolveIsoMonth ⟨some (p.year.getD r.year), mm, cc, some (p.day.getD r.day), p.era, p.eraYear⟩ ov with
-    | err k => rw [hres] at hmr; simp only [Out.bind_err] at hmr; rw [← hmr]; rfl
-    | panic => rw [hres] at hmr; simp only [Out.bind_panic] at hmr; rw [← hmr]; rfl
-    | ok c =>
-      rw [hres] at hmr
-      simp only [Out.bind_ok, Out.pure_eq_ok] at hmr
-      rw [← hmr]
-      have hc := resolveIsoMonth_valid _ _ _ hres
-      simp only [Out.bind_ok, resolveDay, Bool.false_eq_true, if_false, reduceCtorEq, decide_false]
-      have := day_then_new (p.year.getD r.year) (c.num : Int) (p.day.getD r.day) ov hc
-      rw [← this]
-      generalize (if ov = Overflow.constrain then constrainIsoDay (p.year.getD r.year) (↑c.num) (p.day.getD r.day)
-          else do
-            let dim ← isoDaysInMonth (p.year.getD r.year) ↑c.num
-            if 1 ≤ p.day.getD r.day ∧ p.day.getD r.day ≤ dim then pure (p.day.getD r.day) else Out.err ErrKind.range) = X
-      cases X <;> rfl
+  · rw [if_neg h1]
+    by_cases hera : p.era = true ∨ p.eraYear.isSome = true
+    · rw [if_pos hera]
+      have : eraYearIso ⟨(if p.year.isSome ∨ p.era ∨ p.eraYear.isSome then p.year else some r.year), mm, cc,
+          some (p.day.getD r.day), p.era, p.eraYear⟩ = .err .type := by
+        unfold eraYearIso
+        cases hy : p.year <;> cases he : p.era <;> cases hey : p.eraYear <;> simp_all
+      rw [this]; rfl
+    · rw [if_neg hera]
+      have he : p.era = false ∧ p.eraYear = none := by
+        cases h1 : p.era <;> cases h2 : p.eraYear <;> simp_all
+      have hY : (if p.year.isSome ∨ p.era ∨ p.eraYear.isSome then p.year else some r.year) =
+          some (p.year.getD r.year) := by
+        cases hy : p.year <;> simp [he.1, he.2]
+      rw [hY] at hmr ⊢
+      have : eraYearIso ⟨some (p.year.getD r.year), mm, cc, some (p.day.getD r.day), p.era, p.eraYear⟩ =
+          .ok (p.year.getD r.year) := by unfold eraYearIso; simp [he.1, he.2]
+      rw [this]
+      simp only [Out.bind_ok]
+      cases hres : resolveIsoMonth ⟨some (p.year.getD r.year), mm, cc, some (p.day.getD r.day), p.era, p.eraYear⟩ ov with
+      | err k => rw [hres] at hmr; simp only [Out.bind_err] at hmr; rw [← hmr]; rfl
+      | panic => rw [hres] at hmr; simp only [Out.bind_panic] at hmr; rw [← hmr]; rfl
+      | ok c =>
+        rw [hres] at hmr
+        simp only [Out.bind_ok, Out.pure_eq_ok] at hmr
+        rw [← hmr]
+        have hc := resolveIsoMonth_valid _ _ _ hres
+        simp only [Out.bind_ok, resolveDay, Bool.false_eq_true, if_false, reduceCtorEq, decide_false]
+        have := day_then_new (p.year.getD r.year) (c.num : Int) (p.day.getD r.day) ov hc
+        rw [← this]
+        generalize (if ov = Overflow.constrain then constrainIsoDay (p.year.getD r.year) (↑c.num) (p.day.getD r.day)
+            else do
+              let dim ← isoDaysInMonth (p.year.getD r.year) ↑c.num
+              if 1 ≤ p.day.getD r.day ∧ p.day.getD r.day ≤ dim then pure (p.day.getD r.day) else Out.err ErrKind.range) = X
+        cases X <;> rfl
 
 /-- The year is never changed unless supplied; month and day follow the spec's rules on the *resulting* year
     and month (so an unsupplied day changes only when clamping forces it). -/
@@ -116,29 +130,31 @@ theorem C17_year_untouched (r x : IsoDate) (p : PartialDate) (ov : Overflow) (hr
   · cases h
   · split at h
     · cases h
-    · simp only at h
-      cases h1 : mergeMonthSpec r.month p.month p.monthCode ov <;>
-        simp only [h1, Out.bind_ok, Out.bind_err, Out.bind_panic] at h <;> (try cases h)
-      rename_i m
-      cases h2 : mergeDaySpec (p.year.getD r.year) m (p.day.getD r.day) ov <;>
-        simp only [h2, Out.bind_ok, Out.bind_err, Out.bind_panic] at h <;> (try cases h)
-      rename_i d
-      unfold IsoDate.newWithOverflow at h
-      cases ov with
-      | constrain =>
-        rw [regulate_constrain] at h
-        simp only [Out.bind_ok] at h
-        split at h
-        · cases h; rfl
-        · cases h
-      | reject =>
-        rw [regulate_reject] at h
-        split at h
-        · simp only [Out.bind_ok] at h
+    · split at h
+      · cases h
+      · simp only at h
+        cases h1 : mergeMonthSpec r.month p.month p.monthCode ov <;>
+          simp only [h1, Out.bind_ok, Out.bind_err, Out.bind_panic] at h <;> (try cases h)
+        rename_i m
+        cases h2 : mergeDaySpec (p.year.getD r.year) m (p.day.getD r.day) ov <;>
+          simp only [h2, Out.bind_ok, Out.bind_err, Out.bind_panic] at h <;> (try cases h)
+        rename_i d
+        unfold IsoDate.newWithOverflow at h
+        cases ov with
+        | constrain =>
+          rw [regulate_constrain] at h
+          simp only [Out.bind_ok] at h
           split at h
           · cases h; rfl
           · cases h
-        · cases h
+        | reject =>
+          rw [regulate_reject] at h
+          split at h
+          · simp only [Out.bind_ok] at h
+            split at h
+            · cases h; rfl
+            · cases h
+          · cases h
 
 /-- **Applying a date's own fields to itself is the identity** (both modes). -/
 theorem C17_date_with_self (r : IsoDate) (ov : Overflow) (hr : InRange r) :
